@@ -103,7 +103,7 @@ def classify(kf, rec):
             if t["t"] == "List" and t.get("tight"):
                 for it in t.get("c", []):
                     kids = [k for k in it.get("c", []) if k["t"] != "BlankLine"]
-                    if len(kids) >= 2 and any(k["t"] == "List" and not k.get("tight") for k in kids[1:]):
+                    if any(k["t"] == "List" and not k.get("tight") for k in kids):       # also as the item's first block ("- * x")
                         return True
             return any(hit(k) for k in t.get("c", []))
         try:
@@ -185,7 +185,7 @@ def run(chk: Check) -> None:
     chk.port_stat("spec: cleanups = unbold wholly-bold headings, nothing else", len(on), nb)
     # ---- (b) list spacing ----
     gen_docs.AVOID = set(c02.AVOID_MAIN)
-    docs = [gen_docs.gen_doc(rng) for _ in range(250 * n)]
+    docs = [gen_docs.gen_doc(rng) for _ in range(250 * n)] + gen_docs.systematic_docs()
     gen_docs.AVOID = set()
     docs = [d for d in docs if not d.lstrip().startswith("---")] + list(REPRO.values())
     base = c02.all_option_sets(rng, len(docs))
